@@ -494,7 +494,10 @@ where
     // collect result
     for (index, (ts, key)) in keys.iter().enumerate() {
       let dswm = self.datasamples.remove(ts).unwrap();
-      let imd = self.instance_map.get(key).unwrap();
+      let imd = self.instance_map.get_mut(key).unwrap();
+      // The sample leaves the cache, so it no longer counts as a sample of its
+      // instance, e.g. when history depth is enforced.
+      imd.instance_samples.remove(ts);
       let sample_info = Self::make_sample_info(&dswm, imd, len - index - 1, mrs_total, mrsic_total);
       // dwsm.sample_has_been_read = true; // no need to mark read, as the dswm is
       // about to be destroyed
@@ -572,6 +575,11 @@ where
 
     for (ts, key) in keys.iter() {
       let dswm = self.datasamples.remove(ts).unwrap();
+      // The sample leaves the cache, so it no longer counts as a sample of its
+      // instance, e.g. when history depth is enforced.
+      if let Some(imd) = self.instance_map.get_mut(key) {
+        imd.instance_samples.remove(ts);
+      }
       // dwsm.sample_has_been_read = true; // no need to mark read, as the dswm is
       // about to be destroyed
       Self::record_instance_generation_viewed(
